@@ -134,14 +134,40 @@ def run_simcfg_case(case, res):
         pc = sim.state.program_counter
         d = prog.get(pc)
         rr = real_regs(sim)
+        hooked = False
+        if obs_d and d is not None and d["m"] == "ecall" and rr[17] == 4:
+            # print-string: a burst of uncounted byte reads inside one step; every single read is an event for the
+            # policy, so the public read_byte of the memory system is wrapped for this step only
+            mem_ = sim.state.memory
+            orig_ = mem_.read_byte
+            bad_ = []
+
+            def spy(address, *a_, _orig=orig_, **kw_):
+                v_ = _orig(address, *a_, **kw_)
+                cr2 = sim.get_data_cache_entries()
+                r_ = obs_d.observe(view_of(cr2), int(address), cr2)
+                if r_:
+                    bad_.append(r_)
+                res.count("simcfg_print_string_reads_observed")
+                return v_
+
+            mem_.read_byte = spy
+            hooked = True
         try:
             sim.step()
         except Exception:
             break
+        finally:
+            if hooked:
+                del mem_.read_byte
+        if hooked and bad_:
+            res.violation("C10", bad_[0][0], "data cache configured as %s: step %d (print-string ecall): %s" % (dc["policy"], k + 1, bad_[0][1]), case)
+            return
         k += 1
         res.count("simcfg_steps")
         if obs_i:
-            r = obs_i.observe(view_of(sim.get_instruction_cache_entries()), pc)
+            cr_ = sim.get_instruction_cache_entries()
+            r = obs_i.observe(view_of(cr_), pc, cr_)
             if r:
                 res.violation("C10", r[0], "instruction cache configured as %s: step %d (fetch at %d): %s" % (ic["policy"], k, pc, r[1]), case)
                 return
@@ -149,12 +175,14 @@ def run_simcfg_case(case, res):
             addr = None
             if d["m"] in LOADS or d["m"] in STORES:
                 addr = (rr[d["rs1"]] + d["imm"]) & 0xFFFFFFFF
-            r = obs_d.observe(view_of(sim.get_data_cache_entries()), addr)
+            cr_ = sim.get_data_cache_entries()
+            r = obs_d.observe(view_of(cr_), addr, cr_)
             if r and addr is not None:
                 res.violation("C10", r[0], "data cache configured as %s: step %d (%s at %#x): %s" % (dc["policy"], k, d["m"], addr, r[1]), case)
                 return
     fills = (obs_i.fills if obs_i else 0) + (obs_d.fills if obs_d else 0)
     res.count("simcfg_fills_observed", fills)
+    res.count("simcfg_reported_age_checks", (obs_i.age_checks if obs_i else 0) + (obs_d.age_checks if obs_d else 0))
     if fills > 4:
         res.nontrivial(h64(case))
 
